@@ -422,3 +422,64 @@ Proof.
   - reflexivity.
   - apply Qlt_le_weak. apply Qlt_shift_div_l; [lra|]. nra.
 Qed.
+
+(* ------------------------------------------------------------------ monotone, Lipschitz: the closed form *)
+Lemma goodman_equiv_mono M M2 a1 a2 m :
+  0 <= M2 -> 0 <= M -> M < 1 -> 0 < a1 -> a1 < a2 ->
+  goodman_equiv M M2 a1 m < goodman_equiv M M2 a2 m.
+Proof.
+  intros HM2 HM0 HM1 Ha1 Ha.
+  set (k := (1 + M) / (1 + M2)).
+  assert (Ek : k * (1 + M2) == 1 + M) by (unfold k; field; lra).
+  assert (Hk : 0 < k) by (unfold k; apply Qlt_shift_div_l; lra).
+  assert (E3 : forall a, (1 + M) * (a + M2 * m) / (1 + M2) == k * (a + M2 * m)) by (intro; unfold k; field; lra).
+  unfold goodman_equiv.
+  destruct (Qle_bool m (- a1)) eqn:B1; destruct (Qle_bool m (- a2)) eqn:B2;
+  destruct (Qle_bool m a1) eqn:B3; destruct (Qle_bool m a2) eqn:B4; bh; try (exfalso; lra);
+  rewrite ?E3; try nra.
+Qed.
+
+Lemma goodman_equiv_lipschitz_mean M M2 a m1 m2 :
+  0 <= M2 -> M2 <= M -> M < 1 -> 0 < a -> m1 <= m2 ->
+  0 <= goodman_equiv M M2 a m2 - goodman_equiv M M2 a m1 /\
+  goodman_equiv M M2 a m2 - goodman_equiv M M2 a m1 <= m2 - m1.
+Proof.
+  intros HM2 HM0 HM1 Ha Hm.
+  set (k := (1 + M) / (1 + M2)).
+  assert (Ek : k * (1 + M2) == 1 + M) by (unfold k; field; lra).
+  assert (Hk : 0 < k) by (unfold k; apply Qlt_shift_div_l; lra).
+  assert (Hk2 : k * M2 <= M) by nra.
+  assert (E3 : forall m, (1 + M) * (a + M2 * m) / (1 + M2) == k * (a + M2 * m)) by (intro; unfold k; field; lra).
+  unfold goodman_equiv.
+  destruct (Qle_bool m1 (- a)) eqn:B1; destruct (Qle_bool m2 (- a)) eqn:B2;
+  destruct (Qle_bool m1 a) eqn:B3; destruct (Qle_bool m2 a) eqn:B4; bh; try (exfalso; lra);
+  rewrite ?E3; split; try nra.
+  all: assert (T3 : 0 <= k * (M2 * (m2 - m1))) by (apply Qmult_le_0_compat; [lra|apply Qmult_le_0_compat; lra]).
+  all: assert (T1 : 0 <= k * (M2 * (m2 - a))) by (apply Qmult_le_0_compat; [lra|apply Qmult_le_0_compat; lra]).
+  all: nra.
+Qed.
+
+Lemma goodman_at_linear M M2 e1 e2 G :
+  0 <= M2 -> 0 <= M -> M < 1 -> cyc_okR G -> e1 < e2 -> goodman_at M M2 e1 G < goodman_at M M2 e2 G.
+Proof.
+  intros HM2 HM0 HM1 HG He. rewrite !goodman_at_H by assumption.
+  pose proof (H_fkm_pos M M2 G HM2 HM0 HM1 HG) as Hp.
+  apply Qlt_shift_div_l; [exact Hp|]. assert (E : e1 / H_fkm M M2 G * H_fkm M M2 G == e1) by (field; lra). lra.
+Qed.
+
+Theorem fkm_monotone_in_amplitude fx M M2 G a1 a2 m :
+  0 <= M2 -> 0 <= M -> M < 1 -> 0 < a1 -> a1 < a2 -> goal_accepted G = true ->
+  fkm_amp fx M M2 G a1 m < fkm_amp fx M M2 G a2 m.
+Proof.
+  intros HM2 HM0 HM1 Ha1 Ha HG.
+  rewrite !fkm_goodman_closed_form by (assumption || lra).
+  unfold goodman_closed. apply goodman_at_linear; try assumption; [apply goal_accepted_ok; exact HG|].
+  apply goodman_equiv_mono; assumption.
+Qed.
+
+(* the hypotheses of the FKM-Goodman theorems are satisfiable: M = 1/2, M2 = 1/4, amplitude 1 at mean 2 (R = 1/3),
+   target R = -1: (1 + M) (a + M2 m) / (1 + M2) = 9/5 *)
+Example fkm_hypotheses_satisfiable :
+  goal_accepted (Fin (-1)) = true /\ fkm_amp false (1#2) (1#4) (Fin (-1)) 1 2 == 9 # 5
+  /\ goodman_closed (1#2) (1#4) 1 2 (Fin (-1)) == 9 # 5.
+Proof. vm_compute. repeat split; reflexivity. Qed.
